@@ -15,6 +15,8 @@ wrong component, the wrong averaging or the wrong storage class cannot coincide 
 
 from __future__ import annotations
 
+import copy
+
 import numpy as np
 
 from EasyFEA import AlgoType, Models, Simulations
@@ -85,6 +87,9 @@ def cases(tier: str, seed: int) -> list[dict]:
         for kind, dim, et in [("elastic", 2, "TRI3"), ("elastic", 3, "TETRA4"), ("elastic", 2, "QUAD8"), ("thermal", 2, "TRI3"), ("beam", 2, "SEG2"), ("beam", 3, "SEG2"),
                               ("elastic-dyn", 2, "TRI3"), ("elastic-dyn", 2, "QUAD4"), ("thermal-dyn", 2, "TRI3")]:
             out.append({"kind": kind, "dim": dim, "et": et, "mesh": "gmsh", "state": "equilibrium"})
+        for kind, dim, et in [("phasefield", 2, "TRI3"), ("phasefield", 2, "QUAD4"), ("phasefield", 3, "TETRA4"), ("elastic", 2, "TRI6"), ("elastic-dyn", 2, "TRI3"),
+                              ("thermal-dyn", 2, "TRI3"), ("hyperelastic", 2, "TRI3")]:
+            out.append({"kind": kind, "dim": dim, "et": et, "mesh": "gmsh", "state": "stored"})
     for i, c in enumerate(out):
         c["id"] = f"C16-{i:05d}-{c['kind']}-{c['dim']}D-{c['et']}-{c['mesh']}-{c['state']}"
         c["index"] = i
@@ -316,6 +321,10 @@ def run_case(case: dict, ctx: Ctx) -> None:
         simu, info = build(case, rng)
     mesh = simu.mesh
     base = info["base"]
+    if case["state"] == "stored":
+        run_stored(case, ctx, rng, simu, info, key0)
+        ctx.describe(f"{kind}/{dim}D/{et}/{case['mesh']}/stored", mesh.Ne >= 2, kind=kind, et=et, Nn=mesh.Nn, Ne=mesh.Ne)
+        return
     if case["state"] == "equilibrium":
         run_equilibrium(case, ctx, rng, simu, info, key0)
         ctx.describe(f"{kind}/{dim}D/{et}/{case['mesh']}/equilibrium", mesh.Ne >= 2, kind=kind, et=et, Nn=mesh.Nn, Ne=mesh.Ne)
@@ -582,6 +591,66 @@ def gauss_field(simu, info, st, tensor):
 
 
 # ------------------------------------------------------------------------------------------
+def run_stored(case, ctx, rng, simu, info, key0):
+    """Results of stored iterations read back in any order through Result(name, iter=i): each must be the result of THAT
+    state - the same value a brand-new simulation holding only that state reports (a new object has assembled nothing, so
+    nothing it reports can come from another state)."""
+    key = key0 + "/stored-iterations"
+    n_it = 3
+    states = []
+    with ctx.monitored("no-exception", key + "/raised"):
+        with quiet():
+            for i in range(n_it):
+                st, _ = set_state(simu, info, {"state": "random"}, rng)
+                # rates are part of an iteration only for the schemes that use them
+                keep = 3 if case["kind"] == "elastic-dyn" else (2 if case["kind"] == "thermal-dyn" else 1)
+                for pt, (u, v, a) in list(st.items()):
+                    vv = [u, v if keep >= 2 else np.zeros_like(v), a if keep >= 3 else np.zeros_like(a)]
+                    st[pt] = tuple(vv)
+                    simu._Set_solutions(pt, vv[0].copy(), vv[1].copy(), vv[2].copy())
+                simu.Need_Update()
+                # something is assembled and reported from this state before it is saved (as a load step would do)
+                for nm in ("Wdef", "Psi_Crack", "Wkin"):
+                    if nm in simu.Results_Available():
+                        simu.Result(nm)
+                simu.Save_Iter()
+                states.append(st)
+            # a twin per stored state
+            refs = []
+            # psiP / Psi_Crack of a phase-field simulation depend on the history field (the states seen before), which a new object lacks
+            names = [n for n in simu.Results_Available() if n not in ("displacement_matrix", "psiP", "Psi_Crack")]
+            for i in range(n_it):
+                twin, _ = build(case, np.random.default_rng([case["seed"], NUM, case["index"]]))
+                for pt, (u, v, a) in states[i].items():
+                    twin._Set_solutions(pt, u.copy(), v.copy(), a.copy())
+                twin.Need_Update()
+                ref = {}
+                for nm in names:
+                    for nv in (True, False):
+                        try:
+                            ref[(nm, nv)] = copy.deepcopy(twin.Result(nm, nodeValues=nv))
+                        except Exception as e:  # noqa: BLE001 - availability is judged by the other scenarios
+                            ref[(nm, nv)] = ("raised", type(e).__name__)
+                refs.append(ref)
+            order = [0, 2, 1, 0, 2] if case["index"] % 2 else list(rng.permutation(n_it)) + [int(rng.integers(n_it))]
+            n = 0
+            for i in order:
+                for nm in names:
+                    nv = bool(rng.integers(2))
+                    want = refs[i][(nm, nv)]
+                    if isinstance(want, tuple) or want is None:
+                        continue
+                    got = simu.Result(nm, nodeValues=nv, iter=int(i))
+                    w = np.asarray(want, float)
+                    g = np.asarray(got, float) if got is not None else np.full(w.shape, np.nan)
+                    scalar = w.ndim == 0
+                    fam = "scalar" if scalar else "field"
+                    ctx.check("result-of-stored-iteration", relerr(g.reshape(w.shape), w, scale=np.abs(w).max() + 1e-300) if g.size == w.size else np.inf, 1e-9,
+                              f"{key}/{fam}", name=nm, nodeValues=nv, iteration=int(i), order=[int(x) for x in order])
+                    n += 1
+    ctx.event(f"stored-results-read:{n}")
+
+
 def run_beam(case, ctx, rng, simu, info, P, U, names, seen):
     key0 = P.key0
     dim = info["dim"]
